@@ -498,3 +498,89 @@ Example d6a_has_backref : noback d6a_tag 2048 d6a_tag = false. Proof. vm_compute
 Definition ordinary_tag : bytes :=
   [91; 123; 83; 96; 97; 39; 91; 99; 96; 98; 39; 60; 48; 105; 62; 96; 99; 39; 40; 105; 40; 100; 91; 66; 41; 41; 125].  (* [{S`a'[c`b'<0i>`c'(i(d[B))} *)
 Example ordinary_noback : noback ordinary_tag 2048 ordinary_tag = true. Proof. vm_compute. reflexivity. Qed.
+
+(** * the tags of loggable types never need a back-reference: the bound holds for every (non-recursive) type of the C06 universe *)
+From BL Require Import Mser.TagProofs Mser.EnumProofs.
+Section Typed.
+Variable full : bytes.
+
+Lemma nb_members_tags f : forall ts n, (length (concat (map tag ts)) < n)%nat ->
+  Forall (fun t => ty_ok t = true /\ noback full f (tag t) = true) ts -> nb_members (noback full f) n (concat (map tag ts)) = true.
+Proof.
+  induction ts as [|t ts IH]; intros n Hn H.
+  - destruct n; [cbn in Hn; lia|]. reflexivity.
+  - inversion H as [|? ? [Hok Hs] Hr]; subst. destruct n; [cbn in Hn; lia|].
+    cbn [map concat nb_members]. rewrite (tag_pop_tag t _ Hok).
+    pose proof (tag_nonempty t) as Hne. destruct (tag t) eqn:Et; [congruence|]. rewrite <- Et in *. rewrite Hs. cbn [andb].
+    apply IH; [|exact Hr]. cbn [map concat] in Hn. rewrite app_length in Hn. rewrite Et in Hn. cbn [length] in Hn. lia.
+Qed.
+
+Lemma nb_fields_tags f : forall fs n, (length (fields_tag fs) < n)%nat ->
+  Forall (fun fd => name_ok (fst fd) = true /\ ty_ok (snd fd) = true /\ noback full f (tag (snd fd)) = true) fs ->
+  nb_fields (noback full f) n (fields_tag fs) = true.
+Proof.
+  induction fs as [|fd fs IH]; intros n Hn H.
+  - destruct n; [cbn in Hn; lia|]. reflexivity.
+  - inversion H as [|? ? (Hl & Hok & Hs) Hr]; subst. destruct n; [cbn in Hn; lia|].
+    unfold fields_tag in *. cbn [map concat] in *. rewrite <- !app_assoc in *. cbn [app nb_fields] in *.
+    destruct (name_ok_transp _ Hl) as (_ & _ & _ & _ & _ & H39).
+    rewrite (tag_pop_label_spec (fst fd) _ H39). rewrite (tag_pop_tag (snd fd) _ Hok). rewrite Hs. cbn [andb].
+    apply IH; [|exact Hr]. repeat (rewrite app_length in Hn || cbn [length] in Hn). lia.
+Qed.
+
+Theorem noback_tag : forall t f, ty_ok t = true -> empties full t -> noback full f (tag t) = true.
+Proof.
+  induction t using ty_ind'; intros f Hok He; (destruct f as [|f]; [reflexivity|]).
+  - destruct a; reflexivity.
+  - reflexivity.
+  - (* sequence *) cbn [tag noback ty_ok empties] in *. change (91 =? 91) with true. cbv iota.
+    rewrite <- (app_nil_r (tag t)). rewrite (tag_pop_tag t [] Hok). cbn [fst]. now apply IHt.
+  - (* tuple *)
+    cbn [tag ty_ok empties] in *. cbn [noback]. change (40 =? 91) with false. change ((40 =? 40) || (40 =? 60)) with true. cbv iota.
+    rewrite removelast_last. apply nb_members_tags; [lia|].
+    rewrite Forall_forall in *. rewrite forallb_forall in Hok. intros t Ht. split; [apply Hok; exact Ht|].
+    apply (H t Ht f); [apply Hok; exact Ht|apply (empties_member full ts t He Ht)].
+  - (* optional: <0T> *)
+    cbn [tag ty_ok empties app] in *. cbn [noback]. change (60 =? 91) with false. change ((60 =? 40) || (60 =? 60)) with true. cbv iota.
+    replace (48 :: tag t ++ [62]) with ((48 :: tag t) ++ [62]) by reflexivity. rewrite removelast_last.
+    change (48 :: tag t) with (tag TUnit ++ tag t).
+    replace (tag TUnit ++ tag t) with (concat (map tag [TUnit; t])) by (cbn [map concat]; now rewrite app_nil_r).
+    apply nb_members_tags; [lia|]. constructor; [split; [reflexivity|destruct f; reflexivity]|]. constructor; [|constructor]. split; [exact Hok|now apply IHt].
+  - (* variant *)
+    cbn [tag ty_ok empties] in *. cbn [noback]. change (60 =? 91) with false. change ((60 =? 40) || (60 =? 60)) with true. cbv iota.
+    replace (concat (map tag ts) ++ [48; 62]) with ((concat (map tag ts) ++ [48]) ++ [62]) by (now rewrite <- app_assoc). rewrite removelast_last.
+    replace (concat (map tag ts) ++ [48]) with (concat (map tag (ts ++ [TUnit]))) by (rewrite map_app, concat_app; cbn [map concat tag]; now rewrite app_nil_r).
+    apply nb_members_tags; [lia|]. apply Forall_app. split.
+    + rewrite Forall_forall in *. rewrite forallb_forall in Hok. intros t Ht. split; [apply Hok; exact Ht|].
+      apply (H t Ht f); [apply Hok; exact Ht|apply (empties_member full ts t He Ht)].
+    + constructor; [split; [reflexivity|destruct f; reflexivity]|constructor].
+  - reflexivity.
+  - (* struct *)
+    cbn [tag ty_ok empties] in *. apply andb_true_iff in Hok. destruct Hok as [Hn Hfs]. destruct He as [He0 He].
+    destruct (name_ok_transp _ Hn) as (_ & _ & _ & _ & H96 & _).
+    cbn [noback]. change (123 =? 91) with false. change ((123 =? 40) || (123 =? 60)) with false. change (123 =? 123) with true. cbv iota.
+    destruct (list_eq_nil_dec fs) as [Efs|Efs].
+    + subst fs. cbn [map concat app].
+      replace (123 :: n ++ [125]) with ((123 :: n) ++ [125]) by reflexivity. rewrite removelast_last.
+      unfold remove_prefix_before. rewrite (find_pos_notin (123 :: n) 96) by (intros [Q|Q]; [discriminate|contradiction]).
+      rewrite firstn_all, skipn_all. rewrite (He0 eq_refl). reflexivity.
+    + fold (fields_tag fs).
+      replace (123 :: n ++ fields_tag fs ++ [125]) with ((123 :: n ++ fields_tag fs) ++ [125]) by (cbn [app]; now rewrite <- app_assoc).
+      rewrite removelast_last. unfold remove_prefix_before.
+      destruct fs as [|f0 fs0]; [congruence|].
+      assert (Hft : fields_tag (f0 :: fs0) = 96 :: (fst f0 ++ [39] ++ tag (snd f0)) ++ fields_tag fs0) by (unfold fields_tag; cbn [map concat app]; reflexivity).
+      set (T := fields_tag (f0 :: fs0)) in *.
+      assert (Hfp : find_pos (123 :: n ++ T) 96 = S (length n)) by (rewrite Hft; apply (find_pos_struct n _ H96)).
+      assert (Hsk : skipn (S (length n)) (123 :: n ++ T) = T) by (change (S (length n)) with (length (123 :: n)); change (123 :: n ++ T) with ((123 :: n) ++ T); apply skipn_app_exact).
+      rewrite Hfp, Hsk. subst T. destruct (fields_tag (f0 :: fs0)) as [|c0 r0] eqn:Eft; [rewrite Hft in Eft; discriminate|]. rewrite <- Eft.
+      apply nb_fields_tags; [lia|].
+      rewrite Forall_forall in *. rewrite forallb_forall in Hfs. intros fd Hfd. specialize (Hfs fd Hfd). apply andb_true_iff in Hfs. destruct Hfs as [L1 T1].
+      split; [exact L1|split; [exact T1|]]. apply (H fd Hfd f); [exact T1|apply (empties_field full (f0 :: fs0) fd He Hfd)].
+Qed.
+End Typed.
+
+(** hence: for every loggable type of the C06 universe whose empty structs are not shadowed by a definition in the complete tag, and for
+    EVERY input (not only serialized values of the type), the callbacks are bounded *)
+Corollary callbacks_bounded_typed t input : ty_ok t = true -> empties (tag t) t ->
+  (callbacks_of (pv 2048 (tag t) (tag t) input) <= 4 * length (tag t) + 16 * length (tag t) * length (tag t) * length input)%nat.
+Proof. intros Hok He. apply callbacks_bounded. now apply noback_tag. Qed.
